@@ -7,7 +7,7 @@ from specs import families as _families
 UNITS = _families.with_families('C19', UNITS)
 BOUNDED = [
     {'name': 'C19.main.precedence', 'script': 'bounded/c19_main.py', 'timeout': 900,
-     'bound': 'real main() with _cmd_handler replaced by a recorder: 9 options (concurrent, quiet, cache-directory, password, repository, '
+     'bound': 'real main() with _cmd_handler replaced by a recorder: the documented environment names of the s3 and b2 adapters (S3_REGION, B2_KEY_ID) and 9 more options (concurrent, quiet, cache-directory, password, repository, '
               'custom-backend token/level/flag, s3c region) x ALL subsets of the sources in which each can be set (CLI, environment, profile, default section) '
               'x commands snapshot+init (thorough: +restore) x backends local / s3c / a custom backend found through the namespace package; '
               'typed coercion compared across sources; 4 mutually-exclusive combinations must be rejected'},
